@@ -4,6 +4,7 @@ pub mod c02;
 pub mod c03;
 pub mod c04;
 pub mod c05;
+pub mod c06;
 pub mod c07;
 pub mod c08;
 pub mod c09;
@@ -44,6 +45,11 @@ pub fn lookup(id: &str) -> Option<Check> {
             id: "C05",
             level: "exploration",
             run: c05::run,
+        },
+        Check {
+            id: "C06",
+            level: "fault_enumeration",
+            run: c06::run,
         },
         Check {
             id: "C07",
